@@ -5,13 +5,13 @@ PROP = "C09"
 LEVEL = "model_checking"
 SCHEDULERS = ("rr",)
 OPTS = dict(alias=True, combiner=False, fsm=False, nested=False, nested_methods=False, p_fresh=0.97, p_conflict=0.7, p_mconflict=0.4, p_before=0.0, min_tr=2, max_tr=4, nleaf=(1, 3))
-BOUNDS = {"quick": "32 batches x 6 random designs with 2..4 transactions, components up to 4 transactions; fairness window = component size", "thorough": "300 batches x 20 designs, up to 5 transactions"}
+BOUNDS = {"quick": "32 batches x 6 random designs with 2..4 transactions, components up to 4 transactions; fairness window = component size", "thorough": "600 batches x 20 designs, up to 5 transactions"}
 OUTSIDE = OUTSIDE_COMMON
 ASSUMES = ASSUMES_COMMON
 
 
 def configs(tier, seed):
-    return batch_configs(tier, seed, 32, 300, 6 if tier == "quick" else 20, OPTS, SCHEDULERS)
+    return batch_configs(tier, seed, 32, 600, 6 if tier == "quick" else 20, OPTS, SCHEDULERS)
 
 
 def run(cfg, ctx):
